@@ -277,6 +277,7 @@ func (u *Universe) GenDef(r *hx.Rand, have []Def) Def {
 		} else {
 			d.Tags = []string{r.Pick(u.Tags)} // the src-only form requires tags
 		}
+	}
 	d.Fill()
 	return d
 }
